@@ -2,13 +2,15 @@
    to the model's answer and, where the property has an executable spec, the spec's answer.
    Extracted to OCaml; the hand-written driver only parses and prints tokens. *)
 From Coq Require Import ZArith Bool List String.
-From HF Require Import MachInt Outcome GenConsts GenLeap Duration Epoch Gregorian TimeSeries SignedNs Civil LeapSpec.
+From HF Require Import MachInt Outcome GenConsts GenLeap GenUnits Duration Epoch Gregorian TimeSeries F64 DurationF64 SignedNs Civil LeapSpec.
 Import ListNotations.
 Open Scope Z_scope.
 
 (* TNoSpec: the spec leaves this position (or the whole answer) open; TSign b: any integer that is
    negative (b = true) / non-negative (b = false) *)
-Inductive tok := TZ (z : Z) | TL (l : list Z) | TPanic | TErr (k : Z) | TNoSpec | TSign (neg : bool) | TErrAny.
+(* TRange lo hi: any integer in [lo, hi]; TFRange lo hi: an f64 bit pattern whose order-preserving integer image is in [lo, hi] *)
+Inductive tok := TZ (z : Z) | TL (l : list Z) | TPanic | TErr (k : Z) | TNoSpec | TSign (neg : bool) | TErrAny
+  | TRange (lo hi : Z) | TFRange (lo hi : Z).
 
 Definition tb (b : bool) : tok := TZ (if b then 1 else 0).
 Definition tcmp (c : comparison) : tok := TZ (match c with Lt => -1 | Eq => 0 | Gt => 1 end).
@@ -294,14 +296,71 @@ Definition dispatch_calendar (name : string) (a : list tok) : option (list tok *
   | _, _ => None
   end.
 
+(* ------------------------------------------------------------------ floats ---- *)
+(* order-preserving image of a bit pattern (NaN excluded by callers) *)
+Definition f_ord (bits : Z) : Z := if bits <? 2 ^ 63 then bits else - (bits - 2 ^ 63).
+Definition tdur3 (d : duration) : list tok := tdur d ++ [TZ (total_nanoseconds d)].
+(* exact product of an f64 (given by bits, finite) with an integer k, as a rational m * 2^e * k: floor and ceiling *)
+Definition f_mant_exp (bits : Z) : Z * Z :=
+  let biased := (bits / 2 ^ 52) mod 2 ^ 11 in let fr := bits mod 2 ^ 52 in
+  let m := if biased =? 0 then fr else fr + 2 ^ 52 in
+  ((if bits <? 2 ^ 63 then m else - m), (if biased =? 0 then -1074 else biased - 1075)).
+Definition f_finite_bits (bits : Z) : bool := negb ((bits / 2 ^ 52) mod 2 ^ 11 =? 2047).
+(* [lo, hi] enclosing trunc(q * k) with a slack of 1 + |q*k| * 2^-51 (one rounding of the product, one truncation) *)
+Definition prod_range (bits k : Z) : Z * Z :=
+  let '(m, e) := f_mant_exp bits in
+  let p := m * k in
+  let fl := if 0 <=? e then p * 2 ^ e else p / 2 ^ (- e) in
+  let slack := 2 + Z.abs fl / 2 ^ 51 in
+  (fl - slack, fl + 1 + slack).
+Definition range_tok_clamped (lo hi : Z) : tok := TRange (clamp lo) (clamp hi).
+(* f64 nearest to z / 10^9 up to double rounding, via Flocq: used only to centre the tolerance window *)
+Definition approx_seconds (z : Z) : f64 := fdiv (f_of_Z z) (f_of_Z 1000000000).
+Definition fwindow (x : f64) (abs_slack_bits : Z) : tok :=
+  (* +/- 4 ulps of the value, or +/- abs slack (an f64 given by bits) for values below it in magnitude *)
+  let b := f_ord (f_to_bits x) in
+  let lo := f_ord (f_to_bits (fsub x (f_of_bits abs_slack_bits))) in
+  let hi := f_ord (f_to_bits (fadd x (f_of_bits abs_slack_bits))) in
+  TFRange (Z.min (b - 4) lo) (Z.max (b + 4) hi).
+Definition FOUR_ULP_OF_ONE_BITS : Z := 4372995238176751616. (* 2^-50 *)
+
+Definition dispatch_float (name : string) (a : list tok) : option (list tok * list tok) :=
+  match name, a with
+  | "unit_mul_f64"%string, [TZ u; TZ qb] =>
+      let q := f_of_bits qb in
+      Some (tdur3 (unit_mul_f64 (unit_of_Z u) q),
+            if f_is_nan q then [TZ 0; TZ 0; TZ 0]
+            else if f_is_inf q then (if f_sign q then tdur3 D_MIN else tdur3 D_MAX)
+            else let '(lo, hi) := prod_range qb (suf u) in [TNoSpec; TNoSpec; range_tok_clamped lo hi])
+  | "dur_mul_f64"%string, [TZ c; TZ n; TZ qb] =>
+      let q := f_of_bits qb in let v := pval c n in
+      Some (tdur3 (dur_mul_f64 (from_parts c n) qb),
+            if f_is_nan q || (v =? 0) then [TZ 0; TZ 0; TZ 0]
+            else if f_is_inf q then (if Bool.eqb (0 <? v) (negb (f_sign q)) then tdur3 D_MAX else tdur3 D_MIN)
+            else if Z.abs v <=? 320000000000000000000 then
+              (* up to 10 000 years: exactly the real product truncated toward zero *)
+              let '(m, e) := f_mant_exp qb in let p := v * m in
+              let t := if 0 <=? e then p * 2 ^ e else Z.quot p (2 ^ (- e)) in
+              sdur (clamp t) ++ [TZ (clamp t)]
+            else nospec)
+  | "to_seconds"%string, [TZ c; TZ n] =>
+      Some ([TZ (f_to_bits (to_seconds (from_parts c n)))], [fwindow (approx_seconds (pval c n)) FOUR_ULP_OF_ONE_BITS])
+  | "to_unit"%string, [TZ c; TZ n; TZ u] =>
+      Some ([TZ (f_to_bits (to_unit (from_parts c n) (unit_of_Z u)))],
+            let x := fdiv (f_of_Z (pval c n)) (f_of_Z (suf u)) in
+            [fwindow x (f_to_bits (fdiv (f_of_bits FOUR_ULP_OF_ONE_BITS) (fdiv (f_of_Z (suf u)) (f_of_Z 1000000000))))])
+  | _, _ => None
+  end.
+
 Definition dispatch (name : string) (a : list tok) : option (list tok * list tok) :=
+  match dispatch_float name a with Some r => Some r | None =>
   match dispatch_duration name a with
   | Some r => Some r
   | None => match dispatch_epoch name a with
             | Some r => Some r
             | None => dispatch_calendar name a
             end
-  end.
+  end end.
 
 (* decimal I/O helpers for the driver, so that the OCaml side needs no bignum code *)
 
